@@ -532,6 +532,85 @@ Section Values.
   Proof. unfold same_set, as_elems. simpl. rewrite !subset_obj. destruct xs, m; reflexivity. Qed.
 End Values.
 
+(* ------------------------------------------------------------------ strict fragment: the relaxed reading is the Spec *)
+Lemma fok_mono C objcls :
+  (forall q oc p a, fok_pat C objcls true oc p a q = true -> fok_pat C objcls false oc p a q = true) /\
+  (forall l oc p, fok_alist C objcls true oc p l = true -> fok_alist C objcls false oc p l = true) /\
+  (forall c oc p a, fok_apat C objcls true oc p a c = true -> fok_apat C objcls false oc p a c = true).
+Proof.
+  apply pat_mutind.
+  - intros t l IH oc p a. rewrite !fok_pat_eq. cbv zeta. intros H.
+    apply andb_true_iff in H. destruct H as [H Hal]. apply andb_true_iff in H. destruct H as [H Hh].
+    rewrite H, (IH _ _ Hal). simpl. destruct (f_iter C oc a); auto. rewrite orb_true_r. reflexivity.
+  - auto.
+  - intros a c IHc rest IHr oc p. rewrite !fok_alist_cons. intros H.
+    apply andb_true_iff in H. destruct H as [H Hr]. apply andb_true_iff in H. destruct H as [Hn Hc].
+    rewrite Hn, (IHc _ _ _ Hc), (IHr _ _ Hr). reflexivity.
+  - auto.
+  - intros q IH oc p a H. apply IH. exact H.
+  - auto.
+  - auto.
+  - auto.
+  - intros c IH oc p a H. specialize (IH oc p a). destruct c; simpl in *; try discriminate; auto.
+Qed.
+
+Lemma lax_strict C objcls M :
+  (forall q oc p a v, fok_pat C objcls true oc p a q = true -> lax_pat C M oc p a q v = matches_attr (sub C) M (PMatch q) v) /\
+  (forall l oc p o, fok_alist C objcls true oc p l = true -> lax_alist C M oc p l o = matches_attrs (sub C) M l o) /\
+  (forall c oc p a v, fok_apat C objcls true oc p a c = true -> lax_apat C M oc p a c v = matches_attr (sub C) M c v).
+Proof.
+  apply pat_mutind.
+  - intros t l IH oc p a v. rewrite fok_pat_eq. cbv zeta. intros H.
+    apply andb_true_iff in H. destruct H as [H Hal]. apply andb_true_iff in H. destruct H as [_ Hh].
+    destruct v as [z|o'|zs|xs]; try reflexivity.
+    + rewrite matches_attr_obj, matches_eq. change (lax_pat C M oc p a (Pat t l) (VO o')) with (lax_apat C M oc p a (PMatch (Pat t l)) (VO o')).
+      rewrite lax_match_obj, (IH _ _ o' Hal). reflexivity.
+    + rewrite matches_attr_coll. change (lax_pat C M oc p a (Pat t l) (VLO xs)) with (lax_apat C M oc p a (PMatch (Pat t l)) (VLO xs)).
+      rewrite lax_match_coll. cbv zeta.
+      assert (Hc : f_iter C oc a && negb (type_filter C oc a t) &&
+                   cnil (tr_alist C (dflt (f_type C oc a)) (nested_var C oc p a t (negb (is_anil l))) l) = false).
+      { destruct (f_iter C oc a); auto. destruct (type_filter C oc a t); auto. simpl in Hh. simpl.
+        destruct (tr_alist C _ _ l); auto; try discriminate. }
+      rewrite Hc. apply existsb_ext'. intros x. rewrite matches_eq, (IH _ _ x Hal). reflexivity.
+  - reflexivity.
+  - intros a c IHc rest IHr oc p o. rewrite fok_alist_cons. intros H.
+    apply andb_true_iff in H. destruct H as [H Hr]. apply andb_true_iff in H. destruct H as [_ Hc].
+    rewrite lax_alist_cons, matches_attrs_cons, (IHc _ _ _ _ Hc), (IHr _ _ _ Hr). reflexivity.
+  - reflexivity.
+  - intros q IH oc p a v H. apply IH. exact H.
+  - reflexivity.
+  - reflexivity.
+  - reflexivity.
+  - intros c IH oc p a v H. simpl in H. change (lax_apat C M oc p a (PSel c) v) with (lax_apat C M oc p a c v).
+    change (matches_attr (sub C) M (PSel c) v) with (matches_attr (sub C) M c v).
+    destruct c; try discriminate; apply IH; exact H.
+Qed.
+
+(* the Spec's answers are always among those of the relaxed reading (whatever the pattern) *)
+Lemma lax_weaker C M :
+  (forall q oc p a v, matches_attr (sub C) M (PMatch q) v = true -> lax_pat C M oc p a q v = true) /\
+  (forall l oc p o, matches_attrs (sub C) M l o = true -> lax_alist C M oc p l o = true) /\
+  (forall c oc p a v, matches_attr (sub C) M c v = true -> lax_apat C M oc p a c v = true).
+Proof.
+  apply pat_mutind.
+  - intros t l IH oc p a v. destruct v as [z|o'|zs|xs]; try (intros H; exact H).
+    + rewrite matches_attr_obj, matches_eq. change (lax_pat C M oc p a (Pat t l) (VO o')) with (lax_apat C M oc p a (PMatch (Pat t l)) (VO o')).
+      rewrite lax_match_obj. intros H. apply andb_true_iff in H. destruct H as [H1 H2]. rewrite H1, (IH _ _ _ H2). reflexivity.
+    + rewrite matches_attr_coll. change (lax_pat C M oc p a (Pat t l) (VLO xs)) with (lax_apat C M oc p a (PMatch (Pat t l)) (VLO xs)).
+      rewrite lax_match_coll. cbv zeta. destruct (_ && _ && cnil _); auto.
+      rewrite !existsb_exists. intros [x [Hx H]]. exists x. split; auto. rewrite matches_eq in H.
+      apply andb_true_iff in H. destruct H as [H1 H2]. rewrite H1, (IH _ _ _ H2). reflexivity.
+  - reflexivity.
+  - intros a c IHc rest IHr oc p o. rewrite lax_alist_cons, matches_attrs_cons. intros H.
+    apply andb_true_iff in H. destruct H as [H1 H2]. rewrite (IHc _ _ _ _ H1), (IHr _ _ _ H2). reflexivity.
+  - intros v oc p a w H. exact H.
+  - intros q IH oc p a v H. apply IH. exact H.
+  - intros v oc p a w H. exact H.
+  - intros v oc p a w H. exact H.
+  - intros v oc p a w H. exact H.
+  - intros c IH oc p a v H. apply (IH oc p a v). exact H.
+Qed.
+
 (* ------------------------------------------------------------------ the main induction *)
 Lemma tr_apat_match C oc p a q : tr_apat C oc p a (PMatch q) = tr_pat C oc p a q.
 Proof. reflexivity. Qed.
@@ -1125,6 +1204,57 @@ Section Main.
     (forall e', In e' (eval_all cs e) -> exists r, In r R /\ Forall2 (dval e') sels r) /\
     (forall r, In r R -> exists e', In e' (eval_all cs e) /\ Forall2 (dval e') sels r).
 
+  Definition A_rows (l : alist) : Prop := forall oc p e o,
+    good e -> lookup e p = Some (VO o) -> inst o oc -> (forall a, In a (names l) -> fresh e (PAttr p a)) ->
+    fok_alist C objcls true oc p l = true ->
+    rowsOK (sels_alist C oc p l) (tr_alist C oc p l) e (srows_alist (sub C) M l o).
+  Definition C_rows (c : apat) : Prop := forall s oc p a e o,
+    good e -> lookup e p = Some (VO o) -> inst o oc -> fresh e (PAttr p a) ->
+    fok_apat C objcls true oc p a c = true ->
+    rowsOK (sels_apat C s oc p a c) (tr_apat C oc p a c) e (srows_apat (sub C) M s c (attr W o a)).
+  Definition P_rows (q : pat) : Prop := C_rows (PMatch q).
+
+  Lemma rows_nosel q cs e b : concl q cs e b -> rowsOK [] cs e (guard b [[]]).
+  Proof.
+    intros [_ Hb]. split.
+    - intros e' Hin. exists []. split; [|constructor].
+      assert (b = true) by (apply Hb; apply nonempty_ex; eauto). subst. simpl. auto.
+    - intros r Hr. destruct b; [|contradiction]. destruct Hr as [<-|[]].
+      assert (Hne : eval_all cs e <> []) by (apply Hb; reflexivity). apply nonempty_ex in Hne. destruct Hne as [e' He'].
+      exists e'. split; auto. constructor.
+  Qed.
+  Lemma rows_attrsel p a o cs e b : concl (PAttr p a) cs e b -> lookup e p = Some (VO o) ->
+    rowsOK [PAttr p a] cs e (guard b [[attr W o a]]).
+  Proof.
+    intros [Hres Hb] Hp.
+    assert (Hd : forall e', In e' (eval_all cs e) -> Forall2 (dval e') [PAttr p a] [attr W o a]).
+    { intros e' Hin. destruct (Hres e' Hin) as [Hg' [Hx' _]]. constructor; [|constructor]. apply dval_attr_of; auto. }
+    split.
+    - intros e' Hin. exists [attr W o a]. split; auto.
+      assert (b = true) by (apply Hb; apply nonempty_ex; eauto). subst. simpl. auto.
+    - intros r Hr. destruct b; [|contradiction]. destruct Hr as [<-|[]].
+      assert (Hne : eval_all cs e <> []) by (apply Hb; reflexivity). apply nonempty_ex in Hne. destruct Hne as [e' He'].
+      exists e'. split; auto.
+  Qed.
+
+  Lemma C_rows_lit v : C_rows (PLit v).
+  Proof.
+    intros s oc p a e o Hg Hp Hi Hf Hok. destruct all_stmts as [_ [_ HC]].
+    apply (rows_nosel (PAttr p a)). apply (HC (PLit v)); auto. apply (proj2 (proj2 (fok_mono C objcls))). exact Hok.
+  Qed.
+  Lemma C_rows_any v : C_rows (PAny v).
+  Proof.
+    intros s oc p a e o Hg Hp Hi Hf Hok. destruct all_stmts as [_ [_ HC]].
+    pose proof (HC (PAny v) oc p a e o Hg Hp Hi Hf (proj2 (proj2 (fok_mono C objcls)) _ _ _ _ Hok)) as Hc.
+    destruct s; [apply rows_attrsel; auto|apply (rows_nosel (PAttr p a)); auto].
+  Qed.
+  Lemma C_rows_all v : C_rows (PAll v).
+  Proof.
+    intros s oc p a e o Hg Hp Hi Hf Hok. destruct all_stmts as [_ [_ HC]].
+    pose proof (HC (PAll v) oc p a e o Hg Hp Hi Hf (proj2 (proj2 (fok_mono C objcls)) _ _ _ _ Hok)) as Hc.
+    destruct s; [apply rows_attrsel; auto|apply (rows_nosel (PAttr p a)); auto].
+  Qed.
+
   (* ---- the root variable: one independent evaluation per domain element ---- *)
   Definition root_env (o : Z) : env := [(PRoot, VO o)].
   Lemma eval_root_nil : eval_path PRoot [] = map (fun o => (root_env o, VO o)) D.
@@ -1169,85 +1299,6 @@ Section Main.
         rewrite (select_root_bound e' o (Hroot e' He')). simpl; auto.
   Qed.
 End Main.
-
-(* ------------------------------------------------------------------ strict fragment: the relaxed reading is the Spec *)
-Lemma fok_mono C objcls :
-  (forall q oc p a, fok_pat C objcls true oc p a q = true -> fok_pat C objcls false oc p a q = true) /\
-  (forall l oc p, fok_alist C objcls true oc p l = true -> fok_alist C objcls false oc p l = true) /\
-  (forall c oc p a, fok_apat C objcls true oc p a c = true -> fok_apat C objcls false oc p a c = true).
-Proof.
-  apply pat_mutind.
-  - intros t l IH oc p a. rewrite !fok_pat_eq. cbv zeta. intros H.
-    apply andb_true_iff in H. destruct H as [H Hal]. apply andb_true_iff in H. destruct H as [H Hh].
-    rewrite H, (IH _ _ Hal). simpl. destruct (f_iter C oc a); auto. rewrite orb_true_r. reflexivity.
-  - auto.
-  - intros a c IHc rest IHr oc p. rewrite !fok_alist_cons. intros H.
-    apply andb_true_iff in H. destruct H as [H Hr]. apply andb_true_iff in H. destruct H as [Hn Hc].
-    rewrite Hn, (IHc _ _ _ Hc), (IHr _ _ Hr). reflexivity.
-  - auto.
-  - intros q IH oc p a H. apply IH. exact H.
-  - auto.
-  - auto.
-  - auto.
-  - intros c IH oc p a H. specialize (IH oc p a). destruct c; simpl in *; try discriminate; auto.
-Qed.
-
-Lemma lax_strict C objcls M :
-  (forall q oc p a v, fok_pat C objcls true oc p a q = true -> lax_pat C M oc p a q v = matches_attr (sub C) M (PMatch q) v) /\
-  (forall l oc p o, fok_alist C objcls true oc p l = true -> lax_alist C M oc p l o = matches_attrs (sub C) M l o) /\
-  (forall c oc p a v, fok_apat C objcls true oc p a c = true -> lax_apat C M oc p a c v = matches_attr (sub C) M c v).
-Proof.
-  apply pat_mutind.
-  - intros t l IH oc p a v. rewrite fok_pat_eq. cbv zeta. intros H.
-    apply andb_true_iff in H. destruct H as [H Hal]. apply andb_true_iff in H. destruct H as [_ Hh].
-    destruct v as [z|o'|zs|xs]; try reflexivity.
-    + rewrite matches_attr_obj, matches_eq. change (lax_pat C M oc p a (Pat t l) (VO o')) with (lax_apat C M oc p a (PMatch (Pat t l)) (VO o')).
-      rewrite lax_match_obj, (IH _ _ o' Hal). reflexivity.
-    + rewrite matches_attr_coll. change (lax_pat C M oc p a (Pat t l) (VLO xs)) with (lax_apat C M oc p a (PMatch (Pat t l)) (VLO xs)).
-      rewrite lax_match_coll. cbv zeta.
-      assert (Hc : f_iter C oc a && negb (type_filter C oc a t) &&
-                   cnil (tr_alist C (dflt (f_type C oc a)) (nested_var C oc p a t (negb (is_anil l))) l) = false).
-      { destruct (f_iter C oc a); auto. destruct (type_filter C oc a t); auto. simpl in Hh. simpl.
-        destruct (tr_alist C _ _ l); auto; try discriminate. }
-      rewrite Hc. apply existsb_ext'. intros x. rewrite matches_eq, (IH _ _ x Hal). reflexivity.
-  - reflexivity.
-  - intros a c IHc rest IHr oc p o. rewrite fok_alist_cons. intros H.
-    apply andb_true_iff in H. destruct H as [H Hr]. apply andb_true_iff in H. destruct H as [_ Hc].
-    rewrite lax_alist_cons, matches_attrs_cons, (IHc _ _ _ _ Hc), (IHr _ _ _ Hr). reflexivity.
-  - reflexivity.
-  - intros q IH oc p a v H. apply IH. exact H.
-  - reflexivity.
-  - reflexivity.
-  - reflexivity.
-  - intros c IH oc p a v H. simpl in H. change (lax_apat C M oc p a (PSel c) v) with (lax_apat C M oc p a c v).
-    change (matches_attr (sub C) M (PSel c) v) with (matches_attr (sub C) M c v).
-    destruct c; try discriminate; apply IH; exact H.
-Qed.
-
-(* the Spec's answers are always among those of the relaxed reading (whatever the pattern) *)
-Lemma lax_weaker C M :
-  (forall q oc p a v, matches_attr (sub C) M (PMatch q) v = true -> lax_pat C M oc p a q v = true) /\
-  (forall l oc p o, matches_attrs (sub C) M l o = true -> lax_alist C M oc p l o = true) /\
-  (forall c oc p a v, matches_attr (sub C) M c v = true -> lax_apat C M oc p a c v = true).
-Proof.
-  apply pat_mutind.
-  - intros t l IH oc p a v. destruct v as [z|o'|zs|xs]; try (intros H; exact H).
-    + rewrite matches_attr_obj, matches_eq. change (lax_pat C M oc p a (Pat t l) (VO o')) with (lax_apat C M oc p a (PMatch (Pat t l)) (VO o')).
-      rewrite lax_match_obj. intros H. apply andb_true_iff in H. destruct H as [H1 H2]. rewrite H1, (IH _ _ _ H2). reflexivity.
-    + rewrite matches_attr_coll. change (lax_pat C M oc p a (Pat t l) (VLO xs)) with (lax_apat C M oc p a (PMatch (Pat t l)) (VLO xs)).
-      rewrite lax_match_coll. cbv zeta. destruct (_ && _ && cnil _); auto.
-      rewrite !existsb_exists. intros [x [Hx H]]. exists x. split; auto. rewrite matches_eq in H.
-      apply andb_true_iff in H. destruct H as [H1 H2]. rewrite H1, (IH _ _ _ H2). reflexivity.
-  - reflexivity.
-  - intros a c IHc rest IHr oc p o. rewrite lax_alist_cons, matches_attrs_cons. intros H.
-    apply andb_true_iff in H. destruct H as [H1 H2]. rewrite (IHc _ _ _ _ H1), (IHr _ _ _ H2). reflexivity.
-  - intros v oc p a w H. exact H.
-  - intros q IH oc p a v H. apply IH. exact H.
-  - intros v oc p a w H. exact H.
-  - intros v oc p a w H. exact H.
-  - intros v oc p a w H. exact H.
-  - intros c IH oc p a v H. apply (IH oc p a v). exact H.
-Qed.
 
 (* C11 on the relaxed fragment: the answer is exactly what the relaxed reading denotes *)
 Theorem match_run_lax C objcls M T l dom :
